@@ -127,9 +127,9 @@ T2 == {Pr("pair", <<a, b>>, an) : a \in T1s, b \in T1s \cup T0p, an \in {<<>>, <
       \cup {Pr("lambda", <<a, b>>, <<>>) : a \in T1s, b \in T0p}
 \* data
 big == <<0, 0, 0, 0, 0, 0, 0, 0, 64>>                 \* 2^70
-tricky == <<113, 34, 92, 10, 32, 35, 123>>            \* q"\<newline> #{
+tricky == <<113, 34, 92, 10, 32, 32, 35, 123>>        \* q"\<newline><two blanks>#{
 long == [k \in 1..96 |-> 120]
-D0 == {Num(FALSE, <<>>), Num(TRUE, <<1>>), Num(FALSE, big), Num(TRUE, big), Str(<<>>), Str(<<97, 32, 98>>), Str(tricky), Str(long),
+D0 == {Num(FALSE, <<>>), Num(TRUE, <<1>>), Num(FALSE, big), Num(TRUE, big), Str(<<>>), Str(<<32, 97, 32, 32, 98, 32>>), Str(tricky), Str(long),
        Byt(<<>>), Byt(<<0, 255>>), Pr("Unit", <<>>, <<>>), Pr("True", <<>>, <<>>), Pr("None", <<>>, <<>>)}
 D0s == {Num(TRUE, <<1>>), Str(tricky), Byt(<<>>), Pr("Unit", <<>>, <<>>), Num(FALSE, big), Str(<<>>)}
 D0p == {Num(TRUE, <<1>>), Str(long), Pr("None", <<>>, <<>>)}
